@@ -112,6 +112,59 @@ def doc_worker(args):
 PREFIX_RE = re.compile(r'^(?:> ?| {1,8}|[-+*] {1,4}|\d{1,9}[.)] {1,4})*')
 
 
+# ---- the length bound on documents whose every line is prose in containers (clause 3 decided exactly: the words hold no space) ----
+BOUND_WORDS = ['Lorem', 'ipsum,', '(dolor)', 'sit', 'amet;', 'verylongwordindeed', 'x', 'Zed.', '"q"', "it's", 'a-b', 'é', '中文', 'alpha', 'beta', 'gamma', 'delta', 'omega']
+
+
+def gen_bound_block(rng, depth):
+    """lines of one block: a paragraph, a setext heading, or (depth permitting) a quote / list holding blocks"""
+    c = rng.random()
+    if depth >= 3 or c < 0.45:
+        words = [rng.choice(BOUND_WORDS) for _ in range(rng.randint(1, 18))]
+        lines = []
+        while words:
+            k = rng.randint(1, 8)
+            lines.append(' '.join(words[:k]))
+            words = words[k:]
+        if c < 0.2 or (depth >= 3 and rng.random() < 0.4):
+            lines.append(rng.choice(['===', '---', '=', '-----']))
+        return lines
+    kids = []
+    for i in range(rng.randint(1, 3)):
+        if i:
+            kids.append('')
+        kids += gen_bound_block(rng, depth + 1)
+    if c < 0.7:
+        return ['> ' + l if l else '>' for l in kids]
+    marker = rng.choice(['- ', '* ', '+ ', '1. ', '12) ', '-   '])
+    pad = ' ' * len(marker)
+    return [(marker if i == 0 else pad) + l if l else '' for i, l in enumerate(kids)]
+
+
+def bound_worker(args):
+    text, L = args
+    from mistletoe import Document
+    from mistletoe.html_renderer import HtmlRenderer
+    from mistletoe.markdown_renderer import MarkdownRenderer
+    try:
+        with MarkdownRenderer(max_line_length=L) as r:
+            md = r.render(Document(text))
+            md2 = r.render(Document(md))
+        with HtmlRenderer() as h:
+            same = html_norm(h.render(Document(text))) == html_norm(h.render(Document(md)))
+    except Exception as e:
+        return 'EXC %s: %s' % (type(e).__name__, e)
+    bad = []
+    for line in md.split('\n'):
+        if len(line) > L and ' ' in line[PREFIX_RE.match(line).end():].strip():
+            bad.append(('an output line longer than L has a breakable space after its container prefix', line))
+    if not same:
+        bad.append(('reflowed document does not parse to the same document', md))
+    if md2 != md:
+        bad.append(('reflowing the output again changes it', md2))
+    return bad
+
+
 PLAIN_WORDS = ['Lorem', 'ipsum,', '(dolor)', 'sit', 'amet;', 'a.b', 'c:d', 'e%f', 'verylongwordindeed', 'x', 'Zed.', '"q"', "it's", 'a-b', 'c+d', 'e=f', 'g#h', 'i>j', 'k/l', '@m', '^n', '}o', 'é', '中文', 'ß—', '«p»']
 
 
@@ -258,6 +311,25 @@ def run(ctx, only=None):
         if isinstance(r, str) or r[0]:
             ctx.failing.append({'interface': 'oracle(plain words)', 'input': {'text': ' '.join(words) + '\n', 'L': L},
                                 'what': r if isinstance(r, str) else '; '.join(r[0]), 'observed': None if isinstance(r, str) else r[1:], 'kf': None})
+    # ---- clause 3 decided exactly: prose and setext headings nested in quotes and lists, words without spaces, every limit
+    bj = []
+    for _ in range(4000 if ctx.quick() else 80000):
+        blocks = []
+        for i in range(rng.randint(1, 3)):
+            if i:
+                blocks.append('')
+            blocks += gen_bound_block(rng, 0)
+        bj.append(('\n'.join(blocks) + '\n', rng.choice([1, 3, 5, 8, 12, 16, 20, 25, 30, 40, 60, 80, rng.randint(1, 120)])))
+    with mp.Pool(core.NPROC) as pool:
+        bres = pool.map(bound_worker, bj, chunksize=100)
+    for (text, L), r in zip(bj, bres):
+        ctx.count('evaluations')
+        ctx.count('prose_in_containers_documents')
+        if isinstance(r, str):
+            ctx.count('impl_exceptions')
+            continue
+        for what, obs in r[:1]:
+            ctx.failing.append({'interface': 'oracle(prose in containers)', 'input': {'text': text, 'L': L}, 'what': what, 'observed': obs, 'kf': None})
     ctx.count('distinct_nontrivial', len(nontriv))
     ctx.sample({'stream': 'documents', 'text': docs[1][0], 'L': docs[1][1], 'md': dres[1].get('md')})
 
